@@ -225,6 +225,21 @@ theorem A3_embedded (sn : Snaps) (r : Registry) (path : Bytes) (b : Blob) (a' : 
     injection h with h1 _
     exact getStaticEmbeddedAt_good sn r path b (by simpa using hn) h1
 
+
+/-- non-vacuity of `A3_embedded`'s second disjunct, every hypothesis inhabited: EXTERNAL_DIR `/s` (absolute, NUL-free, `..`-free,
+resolving to the canonical directory `/s`, a directory at the open), externalised set `{a, l}`; `a` is served from `/s/a`, the
+escaping link `l` is rejected, a name outside the externalised set is not even looked for -/
+def exReg : Registry := { externalDir := [47, 115], externalPaths := [[97], [108]] }
+example : (getStaticAt (Snaps.const exFs) (.embedded exReg) [97]).1 = .found ⟨[7], Gen.Assets.mimeDefault, none⟩ ∧
+    (getStaticAt (Snaps.const exFs) (.embedded exReg) [108]).1 = .rejected ∧
+    (getStaticAt (Snaps.const exFs) (.embedded exReg) [105]).1 = .notFound ∧
+    isExternalPath exReg [97] = true ∧ isAbs exReg.externalDir = true ∧ (0 : UInt8) ∉ exReg.externalDir ∧
+    dotdot ∉ comps exReg.externalDir ∧ weaklyCanonical (Snaps.const exFs).s exReg.externalDir = .ok (renderAbs [[115]]) ∧
+    (∀ n ∈ [[115]], Plain n) ∧ LeafOnly (Snaps.const exFs) (pathAppend exReg.externalDir [97]) [[115]] ∧
+    (Snaps.const exFs).o.get [[115]].reverse = some .dir :=
+  ⟨by decide, by decide, by decide, by decide, by decide, by decide, by decide, by rfl,
+   fun n hn => (exRoot.plain n hn).1, leafOnly_const _ _ _ (by decide) (by decide) (by decide), by decide⟩
+
 /-! ## A4 — the environment acts WHILE the lookup runs: every interleaving point -/
 
 /-- **A4.** Every path-taking system call of the lookup sees its own file-system snapshot (`sn`); between them the environment does
@@ -331,6 +346,150 @@ theorem A4_residual_intermediate_link :
     (getStatic exNewLink (.filesystem exSt) [110, 101, 119, 47, 120]).1 = .rejected :=
   ⟨set_preserves_dirs _ _ _ (by decide), by decide, by decide⟩
 
+
+/-- **A3 (embedded mode, templates).** An embedded `getTemplate` touches NO file system at all: whatever it returns is the bytes
+of the registry entry of EXACTLY this name (the name passed the lexical filter), the answer is the same in every file-system
+state, and the `Assets` value is unchanged.  (There is no EXTERNAL_DIR fallback for templates.) -/
+theorem A3_embedded_template (sn : Snaps) (r : Registry) (name d : Bytes) (a' : Assets)
+    (h : getTemplateAt sn (.embedded r) name = (some d, a')) :
+    lexicallyRejected name = false ∧ (name, d) ∈ r.templates ∧ a' = .embedded r ∧
+      ∀ sn', getTemplateAt sn' (.embedded r) name = (some d, a') := by
+  have hall : ∀ sn', getTemplateAt sn' (.embedded r) name = getTemplateAt sn (.embedded r) name := fun _ => rfl
+  unfold getTemplateAt at h
+  by_cases hn : lexicallyRejected name = true
+  · simp [hn] at h
+  simp only [hn, Bool.false_eq_true, ↓reduceIte] at h
+  injection h with h1 h2
+  refine ⟨by simpa using hn, ?_, h2.symm, fun sn' => by rw [hall sn']; unfold getTemplateAt; simp [hn, h1, h2]⟩
+  unfold findTemplate at h1
+  split at h1
+  · rename_i a rest hdw
+    split at h1
+    · rename_i heq
+      injection h1 with h1
+      have hmem : a ∈ r.templates := (List.dropWhile_suffix _).subset (by rw [hdw]; exact List.mem_cons_self ..)
+      rw [← heq, ← h1]
+      exact hmem
+    · cases h1
+  · cases h1
+
+/-- non-vacuity: a registry with one template; a traversal name is refused before the table is even searched -/
+example : (getTemplateAt (Snaps.const exFs) (.embedded { templates := [([116], [1, 2])] }) [116]).1 = some [1, 2] ∧
+    (getTemplateAt (Snaps.const exFs) (.embedded { templates := [([46, 46, 47, 116], [1, 2])] }) [46, 46, 47, 116]).1 = none := by decide
+
+/-- **A4 (templates).** The same as `A4_every_point` for `getTemplate` in filesystem mode: one snapshot per system call
+(`status`, `realpath`, `is_regular_file`, `open`), environment `LeafOnly` in between; bytes that are returned fresh are the content
+of a regular file strictly inside the template root IN THE SNAPSHOT OF THE OPEN. -/
+theorem A4_every_point_template (sn : Snaps) (st : FsState) (bn : List Name) (name d : Bytes) (a' : Assets)
+    (hroot : RootOK st.templatesRoot bn) (hcache : st.templateCache = [])
+    (hL : LeafOnly sn (pathAppend st.templatesRoot name) bn)
+    (h : getTemplateAt sn (.filesystem st) name = (some d, a')) : Inside sn.o bn d := by
+  unfold getTemplateAt at h
+  by_cases hn : lexicallyRejected name = true
+  · simp [hn] at h
+  simp only [hn, Bool.false_eq_true, ↓reduceIte] at h
+  have hg := (getTemplateFilesystemAt_good (fun d => Inside sn.o bn d) sn st name bn hroot hL (by simpa using hn) (fun d hd => hd)
+    (by rw [hcache]; intro k d hm; simp at hm)).1 d
+  apply hg
+  cases hx : getTemplateFilesystemAt sn st name with
+  | mk r st' =>
+    rw [hx] at h
+    injection h with h1 _
+
+/-- non-vacuity, at the point between the regular-file test and the `open`: the template `/t/a` is swapped for a link to the secret -/
+def exFsT : Fs := { entries := [([[116]], .dir), ([[97], [116]], .file [7]), ([[111]], .dir), ([[120], [111]], .file [9])] }
+def exSwapT : Fs := exFsT.set [[97], [116]] (.link [47, 111, 47, 120])
+example : (getTemplateAt (Snaps.const exFsT) (.filesystem exSt) [97]).1 = some [7] ∧
+    (getTemplateAt (Snaps.switchAt exFsT exSwapT .C) (.filesystem exSt) [97]).1 = none ∧
+    (getTemplateAt (Snaps.switchAt exFsT exSwapT .R) (.filesystem exSt) [97]).1 = none ∧
+    (getTemplateAt (Snaps.switchAt exFsT exSwapT .O) (.filesystem exSt) [97]).1 = none := by decide
+
+/-- **A4, by LOCATION.** The bytes returned are not merely equal to the content of SOME file inside the root: they were read from
+the object AT THE LOCATION the request named — the location `realpath(<root>/<name>)` ended at when it ran (or, when the request
+did not exist at resolution time, a location below a root that is a directory at the open) — which has the root as component-wise
+prefix; and the gzip bytes were read from the location next to it whose last name is `<last>.gz`. -/
+theorem A4_every_point_located (sn : Snaps) (st : FsState) (bn : List Name) (path : Bytes) (b : Blob) (a' : Assets)
+    (hroot : RootOK st.staticsRoot bn) (hcache : st.staticCache = [])
+    (hL : LeafOnly sn (pathAppend st.staticsRoot path) bn)
+    (h : getStaticAt sn (.filesystem st) path = (.found b, a')) :
+    ∃ last up, sn.o.get (last :: up) = some (.file b.bytes) ∧ bn <+: (last :: up).reverse ∧
+      ((∃ e, kwalk sn.c true (pathAppend st.staticsRoot path) = .ok (last :: up, e) ∧ sn.c.get (last :: up) = some e) ∨
+        sn.o.get bn.reverse = some .dir) ∧
+      ∀ g, b.gz = some g → sn.z.get ((last ++ Gen.Assets.gzSuffix) :: up) = some (.file g) := by
+  unfold getStaticAt at h
+  by_cases hn : lexicallyRejected path = true
+  · simp [hn] at h
+  simp only [hn, Bool.false_eq_true, ↓reduceIte] at h
+  injection h with h1 _
+  unfold getStaticFilesystemAt at h1
+  simp only [hcache, List.lookup_nil] at h1
+  split at h1
+  · cases h1
+  rename_i resolved hw
+  split at h1
+  · cases h1
+  rename_i hc
+  split at h1
+  · cases h1
+  simp only [Bool.not_eq_true] at hc
+  simp only [Bool.not_eq_eq_eq_not] at hc
+  have key : ∀ e, buildEntryAt sn.o sn.g sn.z resolved = some e →
+      ∃ last up, sn.o.get (last :: up) = some (.file (blobOf e path).bytes) ∧ bn <+: (last :: up).reverse ∧
+        ((∃ e', kwalk sn.c true (pathAppend st.staticsRoot path) = .ok (last :: up, e') ∧ sn.c.get (last :: up) = some e') ∨
+          sn.o.get bn.reverse = some .dir) ∧
+        ∀ g, (blobOf e path).gz = some g → sn.z.get ((last ++ Gen.Assets.gzSuffix) :: up) = some (.file g) := by
+    intro e he
+    unfold buildEntryAt at he
+    split at he
+    · cases he
+    rename_i d hd
+    injection he with he; subst he
+    obtain ⟨last, up, hget, hpre, hwhy, hgz⟩ :=
+      resolve_phases_loc sn st.staticsRoot st.staticsRoot bn path resolved hroot.abs hroot.no_nul hroot.no_dotdot hroot.ne hroot.eq
+        (fun n hn' => (hroot.plain n hn').1) (by simpa using hn) hw (by simpa using hc) hL d hd
+    refine ⟨last, up, hget, hpre, hwhy, ?_⟩
+    intro g hg'
+    simp only [blobOf] at hg'
+    split at hg'
+    · exact hgz g hg'
+    · cases hg'
+  split at h1
+  · split at h1
+    · cases h1
+    · rename_i e he; injection h1 with h1; subst h1; exact key e he
+  · split at h1
+    · cases h1
+    · rename_i e he; injection h1 with h1; subst h1; exact key e he
+
+/-- the world after a NEW regular file `/s/new` (content `[5]`) appeared, and after a NEW link `/s/new -> /o/x` appeared -/
+def exNewFile : Fs := exFs.set [[110, 101, 119], [115]] (.file [5])
+def exNewLeafLink : Fs := exFs.set [[110, 101, 119], [115]] (.link [47, 111, 47, 120])
+
+/-- **non-vacuity of the `missing` branch of `LeafOnly`** (the request does NOT exist when `weakly_canonical` runs): the leaf
+`/s/new` is created while the lookup runs, just before the regular-file test.  This environment is `LeafOnly` (instance of
+`A4_leaf_swap_admissible` whose third hypothesis is really used here); created as a regular file the lookup serves its bytes
+`[5]` (inside the root), created as a link to the secret the `open(O_NOFOLLOW)` refuses it. -/
+example : LeafOnly (Snaps.switchAt exFs exNewFile .R) (pathAppend exSt.staticsRoot [110, 101, 119]) [[115]] ∧
+    LeafOnly (Snaps.switchAt exFs exNewLeafLink .O) (pathAppend exSt.staticsRoot [110, 101, 119]) [[115]] ∧
+    status exFs (pathAppend exSt.staticsRoot [110, 101, 119]) = .notFound ∧
+    (getStaticAt (Snaps.switchAt exFs exNewFile .R) (.filesystem exSt) [110, 101, 119]).1 = .found ⟨[5], Gen.Assets.mimeDefault, none⟩ ∧
+    (getStaticAt (Snaps.switchAt exFs exNewLeafLink .R) (.filesystem exSt) [110, 101, 119]).1 = .notFound ∧
+    (getStaticAt (Snaps.switchAt exFs exNewLeafLink .O) (.filesystem exSt) [110, 101, 119]).1 = .notFound := by
+  have hw : weaklyCanonical exFs (pathAppend exSt.staticsRoot [110, 101, 119]) = .ok [47, 115, 47, 110, 101, 119] := by rfl
+  refine ⟨?_, ?_, by decide, by decide, by decide, by decide⟩
+  · refine A4_leaf_swap_admissible exFs _ _ .R _ _ (by decide) (by decide) ?_
+    intro _ r hr
+    rw [hw] at hr
+    injection hr with hr
+    subst hr
+    decide
+  · refine A4_leaf_swap_admissible exFs _ _ .O _ _ (by decide) (by decide) ?_
+    intro _ r hr
+    rw [hw] at hr
+    injection hr with hr
+    subst hr
+    decide
+
 /-! ## A0 — the configured roots -/
 
 /-- **A0.** Whatever `fromDirectory` returns — root given absolute or relative to a sane working directory, with or without
@@ -375,6 +534,28 @@ visible.  The stale bytes are still bytes that were inside the root (that is all
 theorem A5_cache_can_be_stale :
     (hrun ⟨exFs, .filesystem exSt, []⟩ exOps).map (fun o => match o.1 with | .static (.found b) => some b.bytes | _ => none)
       = [some [7], none, some [7], none, some [8]] ∧ exFs2.get [[97], [115]] = some (.file [8]) := by decide
+
+
+/-- a world laid out the way `fromDirectory` expects it: `/static/a` holds `[7]`, `/templates/t` holds `[6]`, `/static/l -> /o/x` -/
+def exFsD : Fs := { entries := [([[115, 116, 97, 116, 105, 99]], .dir), ([[97], [115, 116, 97, 116, 105, 99]], .file [7]),
+    ([[116, 101, 109, 112, 108, 97, 116, 101, 115]], .dir), ([[116], [116, 101, 109, 112, 108, 97, 116, 101, 115]], .file [6]),
+    ([[111]], .dir), ([[120], [111]], .file [9]), ([[108], [115, 116, 97, 116, 105, 99]], .link [47, 111, 47, 120])] }
+def exOpsD : List Op := [.static [97] (Snaps.const exFsD), .template [116] (Snaps.const exFsD), .static [108] (Snaps.const exFsD),
+  .reload, .static [97] (Snaps.const exFsD)]
+
+/-- **non-vacuity of `A5_history`, tied to a `fromDirectory` RESULT**: the constructor succeeds on `exFsD` for the root `/` given
+with a trailing `.`; the history `exOpsD` from ITS result is valid for the roots it computed and returns bytes (static `[7]`,
+template `[6]`), refuses the escaping link, and serves `[7]` again after the reload. -/
+example : ∃ st, fromDirectory exFsD [47, 46] false = some st ∧
+    st.staticsRoot = renderAbs [[115, 116, 97, 116, 105, 99]] ∧ st.templatesRoot = renderAbs [[116, 101, 109, 112, 108, 97, 116, 101, 115]] ∧
+    Valid [[115, 116, 97, 116, 105, 99]] [[116, 101, 109, 112, 108, 97, 116, 101, 115]] exOpsD ∧
+    (hrun ⟨exFsD, .filesystem st, []⟩ exOpsD).map (fun o => match o.1 with
+      | .static (.found b) => some b.bytes | .template (some d) => some d | _ => none) = [some [7], some [6], none, none, some [7]] := by
+  refine ⟨_, rfl, by decide, by decide, ?_, by decide⟩
+  intro op hop
+  simp only [exOpsD, List.mem_cons, List.mem_nil_iff, or_false] at hop
+  rcases hop with rfl | rfl | rfl | rfl | rfl <;> simp only [OpOK] <;>
+    first | trivial | exact leafOnly_const _ _ _ (by decide) (by decide) (by decide)
 
 /-- **A5 (re-validation).** A cache hit is not a bypass: whenever a filesystem-mode static lookup in a file system at rest returns
 a blob — also from the cache — the name, resolved NOW, names a regular file strictly inside the root.  (A name whose file was
@@ -430,5 +611,89 @@ theorem Gen_skeleton :
 /-- `static`, `templates`, `.gz` -/
 theorem Gen_roots : Gen.Assets.staticsSub = [115, 116, 97, 116, 105, 99] ∧ Gen.Assets.templatesSub = [116, 101, 109, 112, 108, 97, 116, 101, 115] ∧
     Gen.Assets.gzSuffix = [46, 103, 122] := by decide
+
+
+/-! ## A6 — the read loop of `readFile` -/
+
+/-- **A6.** For EVERY way the kernel cuts a file into `read` answers — full buffers, SHORT reads of any length, any number of
+`EINTR` failures in between — the loop returns exactly the concatenation of the bytes it was handed before the first `n == 0`
+(nothing dropped, nothing repeated, whatever follows the EOF answer is never read).  `pre` is the list of answers before the
+EOF: each a `data` chunk or an `eintr`. -/
+theorem A6_read_loop (pre rest : List ReadEv) (h : ∀ e ∈ pre, e.benign = true) :
+    readLoop [] (pre ++ .eof :: rest) = some (dataOf pre) := by
+  simpa using readLoop_benign pre h [] rest
+
+/-- **A6 (chunking is irrelevant).** Two runs whose answers carry the same bytes return the same result — in particular the run
+the model of `readFile` uses (`kernelReads`: full buffers of the source's size, then EOF) stands for all of them: a file holding
+`d` that nobody touches is returned as `d`. -/
+theorem A6_chunking_irrelevant (d : Bytes) (pre : List ReadEv) (h : ∀ e ∈ pre, e.benign = true) (hd : dataOf pre = d) :
+    readLoop [] (pre ++ [.eof]) = readLoop [] (kernelReads Gen.Assets.readBufSize d) ∧
+    readLoop [] (kernelReads Gen.Assets.readBufSize d) = some d := by
+  rw [readLoop_kernelReads, A6_read_loop pre [] h, hd]
+  exact ⟨rfl, rfl⟩
+
+/-- **A6 (errors).** Any failure other than `EINTR` before the EOF makes `readFile` give up with `nullopt`: a partial content is
+never returned as if it were the file. -/
+theorem A6_read_error (pre rest : List ReadEv) (h : ∀ e ∈ pre, e.benign = true) : readLoop [] (pre ++ .err :: rest) = none :=
+  readLoop_error pre h [] rest
+
+/-- non-vacuity: `[1,2,3,4,5]` read as `[1] EINTR [2,3] EINTR EINTR [4,5] EOF`; an I/O error after the first chunk; and the
+zero-byte file -/
+example : readLoop [] [.data [1], .eintr, .data [2, 3], .eintr, .eintr, .data [4, 5], .eof] = some [1, 2, 3, 4, 5] ∧
+    readLoop [] [.data [1], .err, .data [2], .eof] = none ∧ readLoop [] [.eof] = some [] ∧
+    kernelReads 2 [1, 2, 3, 4, 5] = [.data [1, 2], .data [3, 4], .data [5], .eof] := by decide
+
+/-! ## MIME type (not part of containment; the table the model uses is the source's) -/
+
+/-- the MIME type is the default or the second component of an entry of the source's table -/
+theorem M1_mime_from_table (path : Bytes) :
+    mimeFor path = Gen.Assets.mimeDefault ∨ ∃ e ∈ Gen.Assets.mimeTable, mimeFor path = e.2 := by
+  unfold mimeFor
+  simp only
+  split
+  · exact Or.inl rfl
+  · split
+    · rename_i e he
+      exact Or.inr ⟨e, List.mem_of_find?_eq_some he, rfl⟩
+    · exact Or.inl rfl
+
+/-- the table has no two entries for the same extension (the linear scan's order does not matter), every key starts with `.` and is
+lower-case (the comparison lowers the request's extension only... and the key), and the default is `application/octet-stream` -/
+theorem Gen_mime : Gen.Assets.mimeDefault = "application/octet-stream" ∧ Gen.Assets.mimeTable.length = 21 ∧
+    (Gen.Assets.mimeTable.map (·.1)).Nodup ∧
+    Gen.Assets.mimeTable.all (fun e => e.1.toList.head? == some '.' && e.1.toList.all (fun c => !c.isUpper)) = true := by decide
+
+/-! ## Conformance: the read loop, the census of file-system tokens, the lock skeleton -/
+
+/-- the read loop as the model's `readLoop` assumes it: a 65536-byte buffer, `n > 0` appends, `n == 0` leaves the loop, `EINTR`
+retries, any other error returns `nullopt` (`append` → `assign` or a dropped `continue` changes these and breaks `readLoop_benign`) -/
+theorem Gen_read_loop : Gen.Assets.readBufSize = 65536 ∧ Gen.Assets.readAccumulate = "append" ∧ Gen.Assets.readAtEof = "break" ∧
+    Gen.Assets.readRetryErrno = "EINTR" ∧ Gen.Assets.readAtRetryErrno = "continue" ∧ Gen.Assets.readAtError = "return std::nullopt" := by
+  decide
+
+/-- **census**: EVERY `fs::…(` / `std::filesystem::…(` call, every path-typed local, every global-namespace call (`::open`,
+`::read`, `::close`), every stream / swap / `/=` token of the ten functions on the lookup paths — nothing else touches the file
+system or can redirect a checked path (an added `fs::symlink_status`, `fs::canonical`, `fs::exists`, `read_symlink`, a second
+`::open`, an `ifstream`, a new `fs::path joined` local … changes this list; `resolved.swap(x)`, `candidate /= x` are refused by
+the translator outright) -/
+theorem Gen_census : Gen.Assets.census = [
+    ("fromDirectory", ["fs::path canonicalRoot", "fs::canonical()", "fs::is_directory()", "fs::filesystem_error()", "fs::weakly_canonical()", "fs::weakly_canonical()"]),
+    ("getTemplate", []), ("getStatic", []), ("reload", []),
+    ("isContained", ["fs::path rel", "fs::path()"]),
+    ("readFile", ["::open()", "::close()", "::read()"]),
+    ("buildEntry", ["fs::path gz", "fs::is_regular_file()"]),
+    ("getStaticEmbedded", ["fs::path externalDir", "fs::path base", "fs::weakly_canonical()", "fs::path candidate", "fs::path()", "fs::path resolved", "fs::weakly_canonical()", "fs::is_regular_file()"]),
+    ("getStaticFilesystem", ["fs::path base", "fs::path candidate", "fs::path()", "fs::path resolved", "fs::weakly_canonical()", "fs::is_regular_file()"]),
+    ("getTemplateFilesystem", ["fs::path base", "fs::path candidate", "fs::path()", "fs::path resolved", "fs::weakly_canonical()", "fs::is_regular_file()"]),
+    ("readFile#else", ["std::ifstream"])] := by decide
+
+/-- the critical sections of the two caches: probe under the lock, build/read OUTSIDE it, second probe and insertion in ONE
+critical section, insertion by `emplace` (never overwrites), no access outside a critical section; `reload` clears both under the lock -/
+theorem Gen_lock_skeleton :
+    Gen.Assets.staticCriticalSections = ["find,end", "find,end,emplace"] ∧ Gen.Assets.staticUnguardedAccesses = [] ∧
+    Gen.Assets.templateCriticalSections = ["find,end", "find,end,emplace"] ∧ Gen.Assets.templateUnguardedAccesses = [] ∧
+    Gen.Assets.staticBuildUnderLock = false ∧ Gen.Assets.templateReadUnderLock = false ∧
+    Gen.Assets.staticCacheInsert = "emplace" ∧ Gen.Assets.templateCacheInsert = "emplace" ∧
+    Gen.Assets.reloadUnderLock = true ∧ Gen.Assets.reloadClears = ["staticCache", "templateCache"] := by decide
 
 end Iora.C20
